@@ -621,10 +621,47 @@ Proof.
 Qed.
 
 (* ------------------------------------------------------------------ *)
+(* Format (golang.org/x/tools/txtar)                                   *)
+
+(* the regenerated format string of x/tools' Format is "marker %s markerEnd \n", and
+   the x/tools package has the same three marker constants as /repo's: a change of
+   either side breaks these two lemmas *)
+Lemma xtools_format_string_eq :
+  xtools_format_string = marker ++ [x25; x73] ++ marker_end ++ [NL].
+Proof. reflexivity. Qed.
+
+Lemma xtools_markers_eq :
+  xtools_marker = marker /\ xtools_marker_end = marker_end /\ xtools_newline_marker = newline_marker.
+Proof. repeat split. Qed.
+
+(* fmt.Fprintf(&buf, "-- %s --\n", name) writes the marker line, whatever bytes the
+   name consists of (it is an argument, not part of the format) *)
+Lemma expand_format_string n : expand_s xtools_format_string [n] = Some (format_marker n).
+Proof. reflexivity. Qed.
+
+Lemma format_files_eq fs : forall buf, format_files fs buf = Ok (buf ++ body fs).
+Proof.
+  induction fs as [|[n d] fs IH]; intros buf.
+  - cbn [format_files body map concat]. now rewrite app_nil_r.
+  - cbn [format_files]. rewrite expand_format_string, fix_nl_idx_eq, IH.
+    unfold body. cbn [map concat fst snd]. now rewrite <- !app_assoc.
+Qed.
+
+Theorem format_idx_eq a : format_idx a = Ok (format a).
+Proof. unfold format_idx. rewrite fix_nl_idx_eq, format_files_eq. now rewrite format_eq. Qed.
+
+(* ------------------------------------------------------------------ *)
 (* Examples (evaluated before the proofs were written)                 *)
 
 Require Coq.Strings.String.
 Import Coq.Strings.String.StringSyntax.
+
+(* '%' in a name is data: the statement-level Format does not re-interpret it *)
+Example ex_format_percent :
+  format_idx {| comment := []; files := [(B "%s%d%", B "x")] |} = Ok (B "-- %s%d% --" ++ [NL] ++ B "x" ++ [NL])
+  /\ expand_s (B "%d") [B "x"] = None /\ expand_s (B "a%%%s") [B "x"] = Some (B "a%x").
+Proof. vm_compute. repeat split; reflexivity. Qed.
+
 
 Example ex_idx_crlf : parse_idx ex_crlf = Ok (parse ex_crlf).
 Proof. vm_compute. reflexivity. Qed.
